@@ -10,7 +10,7 @@ import (
 var known = ev.Matcher[Case]{}
 
 const rule = "real `atlas migrate apply` (binary built with -tags verif) on a SQLite database file: directory = an idempotent init file + 1-3 files x 1-3 journal INSERT statements; " +
-	"x tx-mode {file, all, none}, plus per-file atlas:txmode directives, plus directories in which one file is an atlas:checkpoint (a fresh database starts there and never runs the earlier files); for every configuration a probe run records the sequence of instrumented points reached " +
+	"x tx-mode {file, all, none}, plus per-file atlas:txmode directives, plus directories in which one file is an atlas:checkpoint (a fresh database starts there and never runs the earlier files), plus a file that appears after later versions were applied (--exec-order non-linear); for every configuration a probe run records the sequence of instrumented points reached " +
 	"(before/after each statement, before/after each revision write, before/after commit) and then the process is killed (exit without deferred code) at every point index in turn; the same command is then run again. " +
 	"Oracle, read with an independent go-sqlite3 connection: right after the crash no revision row claims a statement whose journal id is absent, in file/all modes no file is half applied and in all mode nothing is visible unless the crash was after the commit; " +
 	"after the re-run (exit 0) every id exists exactly once (none mode: at most the single statement in flight at the crash twice) and all revisions are complete. " +
@@ -41,7 +41,13 @@ func configs(thorough bool) []Case {
 		cps = append(cps, Case{Shape: []int{2, 3, 2}, Mode: "none", Checkpoint: 2}, Case{Shape: []int{1, 2, 1}, Mode: "file", Checkpoint: 2}, Case{Shape: []int{1, 2, 1}, Mode: "all", Checkpoint: 2},
 			Case{Shape: []int{3}, Mode: "none", Checkpoint: 1}, Case{Shape: []int{1, 1, 2, 2, 1}, Mode: "none", Checkpoint: 4, Earlier: []int{1, 2}}, Case{Shape: []int{1, 2, 2, 2}, Mode: "file", Checkpoint: 3, Earlier: []int{2}}, Case{Shape: []int{1, 1, 3}, Mode: "none", Checkpoint: 3}, Case{Shape: []int{2, 2, 2}, Mode: "none", Checkpoint: 1})
 	}
-	return append(out, cps...)
+	out = append(out, cps...)
+	// a file that shows up after later versions were applied, executed with --exec-order non-linear
+	late := []Case{{Shape: []int{1, 3, 1}, Mode: "none", Late: 2}, {Shape: []int{2, 2}, Mode: "file", Late: 1}}
+	if thorough {
+		late = append(late, Case{Shape: []int{1, 2, 2, 1}, Mode: "none", Late: 3}, Case{Shape: []int{2, 3, 1}, Mode: "all", Late: 2}, Case{Shape: []int{1, 3}, Mode: "none", Late: 1})
+	}
+	return append(out, late...)
 }
 
 func TestCheck(t *testing.T) {
@@ -56,9 +62,12 @@ func TestCheck(t *testing.T) {
 		if c.Checkpoint > 0 {
 			cls = "checkpoint/" + cls
 		}
+		if c.Late > 0 {
+			cls = "out-of-order-file/" + cls
+		}
 		col.Class(cls)
 		if out.Crashed {
-			col.NonTrivial(fmt.Sprintf("%v|%s|%v|%d%v|%d", c.Shape, c.Mode, c.Directives, c.Checkpoint, c.Earlier, c.K))
+			col.NonTrivial(fmt.Sprintf("%v|%s|%v|%d%v|%d|%d", c.Shape, c.Mode, c.Directives, c.Checkpoint, c.Earlier, c.Late, c.K))
 		}
 		col.Sample(cls, c)
 		return err
